@@ -8,26 +8,26 @@ DIR="$ROOT/seeded/$ID"
 export CARGO_NET_OFFLINE=true RUST_BACKTRACE=0
 case "$MODE" in
 validate)
-  WT=/tmp/seedcheck-wt; TGT=/tmp/seedcheck-target
+  T="${SEEDCHECK_TAG:-}"; WT=/tmp/seedcheck-wt$T; TGT=/tmp/seedcheck-target$T
   git -C /repo worktree remove --force "$WT" 2>/dev/null; rm -rf "$WT"
   git -C /repo worktree add -q --detach "$WT" HEAD || exit 2
   cd "$WT"
   DEMO=""
   if [ -f "$DIR/demo.rs" ]; then cp "$DIR/demo.rs" tests/seeded_demo.rs; DEMO=rs; fi
-  run_demo() { CARGO_TARGET_DIR=$TGT cargo test --offline --test seeded_demo >/tmp/seedcheck-demo.log 2>&1; }
+  run_demo() { CARGO_TARGET_DIR=$TGT cargo test --offline --test seeded_demo >/tmp/seedcheck-demo$T.log 2>&1; }
   if [ "$DEMO" = rs ]; then
     run_demo; BASE=$?
   else BASE=skip; fi
-  if ! git apply --whitespace=nowarn "$DIR/patch.diff" 2>/tmp/seedcheck-apply.log; then
-    if ! git apply --3way --whitespace=nowarn "$DIR/patch.diff" 2>>/tmp/seedcheck-apply.log; then
-      echo "$ID: PATCH DOES NOT APPLY to current HEAD"; cat /tmp/seedcheck-apply.log | head -5
+  if ! git apply --whitespace=nowarn "$DIR/patch.diff" 2>/tmp/seedcheck-apply$T.log; then
+    if ! git apply --3way --whitespace=nowarn "$DIR/patch.diff" 2>>/tmp/seedcheck-apply$T.log; then
+      echo "$ID: PATCH DOES NOT APPLY to current HEAD"; cat /tmp/seedcheck-apply$T.log | head -5
       cd /; git -C /repo worktree remove --force "$WT"; exit 3
     fi
   fi
-  mv tests/seeded_demo.rs /tmp/seeded_demo.rs.keep 2>/dev/null
-  CARGO_TARGET_DIR=$TGT cargo test --workspace --no-fail-fast --offline >/tmp/seedcheck-suite.log 2>&1; SUITE=$?
-  PASSED=$(grep -E "^test result" /tmp/seedcheck-suite.log | awk '{s+=$4} END {print s}')
-  mv /tmp/seeded_demo.rs.keep tests/seeded_demo.rs 2>/dev/null
+  mv tests/seeded_demo.rs /tmp/seeded_demo$T.rs.keep 2>/dev/null
+  CARGO_TARGET_DIR=$TGT cargo test --workspace --no-fail-fast --offline >/tmp/seedcheck-suite$T.log 2>&1; SUITE=$?
+  PASSED=$(grep -E "^test result" /tmp/seedcheck-suite$T.log | awk '{s+=$4} END {print s}')
+  mv /tmp/seeded_demo$T.rs.keep tests/seeded_demo.rs 2>/dev/null
   if [ "$DEMO" = rs ]; then run_demo; WITH=$?; else WITH=skip; fi
   echo "$ID: demo_on_head=$BASE (0 expected) suite_with_change=$SUITE passed=$PASSED (0/52 expected) demo_with_change=$WITH (non-zero expected)"
   cd /; git -C /repo worktree remove --force "$WT"
